@@ -9,6 +9,7 @@ pub mod flavour;
 pub mod keys;
 pub mod hist;
 pub mod invariants;
+pub mod acache;
 
 use std::io::Write;
 
